@@ -96,6 +96,53 @@ theorem C19_admission_sound (p : Pool) (txs : List TxR) :
     (admission p txs).2.Pairwise (fun a b => (a.acct, a.nonce) ≠ (b.acct, b.nonce)) :=
   ⟨(admission_facts p txs).2.2.1, (admission_facts p txs).2.2.2⟩
 
+/-! ### …and over whole histories -/
+
+inductive Op
+  | process (txs : List TxR) (isLeader : Bool) (group : Nat)
+  | generate
+  | commit (hashes : List String)
+  | evict (cut : Nat)
+
+def step (p : Pool) : Op → Pool
+  | .process txs l g => (process p txs l g).1
+  | .generate => (generate p).1
+  | .commit hs => commit p hs
+  | .evict cut => (evict p cut).1
+
+def run (p : Pool) (ops : List Op) : Pool := ops.foldl step p
+
+/-- the documented reasons for which operation `op`, applied to pool `q`, may forget the hash `h` -/
+def Reason (q : Pool) (h : String) : Op → Prop
+  | .process txs _ _ => ∃ tx ∈ txs, ∃ old, KV.get q.items (tx.acct, tx.nonce) = some old ∧ old.hash = h ∧ tx.hash ≠ h   -- superseded
+  | .generate => False
+  | .commit hs => h ∈ hs                                                                                              -- committed
+  | .evict _ => ∃ pt tx, KV.get q.items pt = some tx ∧ tx.hash = h ∧ pt ∈ q.parking ∧ pt ∉ q.batched                  -- age rule
+
+theorem step_keeps_or_reason (p : Pool) (op : Op) (h : String) (ptr : Ptr) (hh : KV.get p.hashMap h = some ptr) :
+    KV.get (step p op).hashMap h = some ptr ∨ Reason p h op := by
+  cases op with
+  | process txs l g => exact C19_process_forgets_only_superseded p txs l g h ptr hh
+  | generate => left; show KV.get (generate p).1.hashMap h = some ptr; rw [(generate_hashMap p).1]; exact hh
+  | commit hs => exact C19_commit_forgets_only_committed p hs h ptr hh
+  | evict cut => exact C19_evict_forgets_only_parked p cut h ptr hh
+
+/-- **no silent loss over any history** of admissions, batch generations, commits and evictions, from any pool state: a
+hash that is held stays held (under the same pointer) to the end of the history, unless at some point of the history one
+of the three documented reasons applied to it — it was committed, superseded, or evicted by the age rule while parked -/
+theorem C19_history_no_silent_loss (ops : List Op) (p : Pool) (h : String) (ptr : Ptr)
+    (hh : KV.get p.hashMap h = some ptr) :
+    KV.get (run p ops).hashMap h = some ptr ∨
+      ∃ pre op post, ops = pre ++ op :: post ∧ Reason (run p pre) h op := by
+  induction ops generalizing p with
+  | nil => exact Or.inl hh
+  | cons op rest ih =>
+    rcases step_keeps_or_reason p op h ptr hh with hk | hr
+    · rcases ih (step p op) hk with h1 | ⟨pre, op', post, he, hr⟩
+      · exact Or.inl h1
+      · exact Or.inr ⟨op :: pre, op', post, by rw [he]; rfl, hr⟩
+    · exact Or.inr ⟨[], op, rest, rfl, hr⟩
+
 -- premises are satisfiable and the exception is real: inserting a second transaction for (a, 0) forgets the first hash,
 -- inserting one for (a, 1) does not
 example :
